@@ -16,6 +16,8 @@
 #include <memory>
 #include <climits>
 #include <cstring>
+#include <map>
+#include <type_traits>
 #include <igris/datastruct/ring.h>
 #include <igris/datastruct/ring_counter.h>
 #include <igris/container/ring.h>
@@ -379,6 +381,26 @@ template <class T> struct TR
             x.pop();
             if (empty) { resync(); o.tag("overmove"); } else q.pop_front();
         }
+        else if (op == "pushfull" || op == "popempty")
+        { // the property's clause "a full ring rejects writes / an empty ring rejects reads without
+          // changing state", judged on push()/pop() of the typed ring (recorded finding: they do not test)
+            unsigned h0 = x.r.head, t0 = x.r.tail, a0 = x.avail();
+            if (op == "pushfull") x.push((T)strtol(w[1].c_str(), 0, 10)); else x.pop();
+            bool applies = op == "pushfull" ? (int64_t)q.size() == size - 1 : q.empty();
+            if (applies && (x.r.head != h0 || x.r.tail != t0 || x.avail() != a0))
+                o.fail(op == "pushfull" ? "push on a full ring was not rejected: " + S(a0) + " stored elements became " + S(x.avail())
+                                        : "pop on an empty ring was not rejected: avail became " + S(x.avail()));
+            else if (!applies) { if (op == "pushfull") q.push_back((T)strtol(w[1].c_str(), 0, 10)); else q.pop_front(); }
+            if (applies) { resync(); o.tag("overmove"); }
+        }
+        else if (op == "pushalias")
+        { // the argument aliases the slot that push() constructs into
+            bool full = (int64_t)q.size() == size - 1;
+            T v = x.head_place();
+            x.push(x.head_place());
+            if (full) { resync(); o.tag("overmove"); } else q.push_back(v);
+            o.tag("alias");
+        }
         else if (op == "clear") { x.clear(); q.clear(); if (!x.empty()) o.fail("not empty after clear"); }
         else if (op == "mh1") { x.move_head_one(); resync(); }
         else if (op == "mt1") { x.move_tail_one(); resync(); }
@@ -546,11 +568,12 @@ static void run_cyc(const std::vector<std::string> &w, out &o)
         int i = (int)strtol(w[1].c_str(), 0, 10);
         int v = x[i];
         ret = S(v);
-        size_t k = (size_t)i % cy.cap; // slots repeat with period cap
+        size_t k = (size_t)emod(i, (int64_t)cy.cap); // slots repeat with period cap (negative i: counter - i < size)
         int exp = k < n ? cy.log[n - 1 - k] : 0;
+        if (i < 0) o.tag("nth-neg");
         if (v != exp) o.fail("cb[" + S(i) + "] = " + S(v) + ", the " + S(k) + "-th previous sample is " + S(exp));
-        if ((size_t)i < std::min(n, cy.cap)) o.tag("nth");
-        if (n > cy.cap && n % cy.cap < (size_t)i % cy.cap + 1) o.tag("nth-wrap");
+        if (i >= 0 && (size_t)i < std::min(n, cy.cap)) o.tag("nth");
+        if (i >= 0 && n > cy.cap && n % cy.cap < (size_t)i % cy.cap + 1) o.tag("nth-wrap");
     }
     else if (op == "resize")
     {
@@ -627,6 +650,15 @@ struct Ledger
     std::set<void *> blocks;
     long allocs = 0;
     long over_live = 0, dead_dtor = 0, dead_read = 0;
+    long ctor = 0, dtor = 0;                 // constructor / destructor calls on slots of allocated arrays
+    std::map<const char *, size_t> ranges;   // arrays handed out by the counting allocator
+    bool in_array(const void *p) const
+    {
+        auto it = ranges.upper_bound((const char *)p);
+        if (it == ranges.begin()) return false;
+        --it;
+        return (const char *)p < it->first + it->second;
+    }
     std::vector<std::string> errs;
     void err(const std::string &e) { if (errs.size() < 4) errs.push_back(e); }
 };
@@ -637,6 +669,7 @@ struct Tracked
     void born()
     {
         if (!LG.live.insert(this).second) { LG.over_live++; LG.err("object constructed over a live object (the old one is never destroyed)"); }
+        if (LG.in_array(this)) LG.ctor++;
     }
     Tracked() : v(0) { born(); }
     Tracked(int x) : v(x) { born(); }
@@ -651,6 +684,7 @@ struct Tracked
     ~Tracked()
     {
         if (!LG.live.erase(this)) { LG.dead_dtor++; LG.err("destructor run on an object that is not alive (destroyed twice or never constructed)"); }
+        if (LG.in_array(this)) LG.dtor++;
     }
 };
 template <class T> struct CountingAlloc
@@ -663,6 +697,7 @@ template <class T> struct CountingAlloc
         LG.allocs++;
         T *p = (T *)malloc(n ? n * sizeof(T) : 1);
         LG.blocks.insert(p);
+        LG.ranges[(const char *)p] = n * sizeof(T);
         return p;
     }
     void deallocate(T *p, size_t n)
@@ -672,6 +707,7 @@ template <class T> struct CountingAlloc
         auto it = LG.live.lower_bound(p);
         if (it != LG.live.end() && (const char *)*it < (const char *)(p + n)) LG.err("storage released while it holds live objects");
         LG.blocks.erase(p);
+        LG.ranges.erase((const char *)p);
         free(p);
     }
 };
@@ -743,6 +779,15 @@ static void run_lifecount(const std::vector<std::string> &w, out &o)
                 if (r->tail().v != q.front()) o.fail("tail() is " + S(r->tail().v) + ", the oldest pushed is " + S(q.front()));
                 r->pop(); q.pop_front();
             }
+            else if (ch == 'U' || ch == 'O' || ch == 'a')
+            { // outside the FIFO contract (push although full, pop although empty) or aliasing push:
+              // the lifetime clauses still apply; the reference queue is re-read from the ring
+                if (ch == 'U') { r->push(Tracked(k)); k++; }
+                else if (ch == 'O') r->pop();
+                else r->push(r->head_place());
+                q.clear();
+                for (unsigned i = r->r.tail; i != r->r.head; i = (i + 1) % r->r.size) q.push_back(r->buffer[i].v);
+            }
             else if (ch == 'c') { r->clear(); q.clear(); }
             else if (ch == 'z') { r->resize(n); q.clear(); }
             else if (ch == 'y') { std::unique_ptr<TRng> c(new TRng(*r)); r = std::move(c); }
@@ -761,7 +806,13 @@ static void run_lifecount(const std::vector<std::string> &w, out &o)
         }
     }
     if (LG.allocs != 0) o.fail(S(LG.allocs) + " allocations never released");
-    o.result = S(LG.over_live) + " " + S(LG.dead_dtor) + " " + S(LG.dead_read);
+    // the lifetime clause (repaired in round 3): every constructed element is destroyed exactly once
+    if (LG.over_live) o.fail(S(LG.over_live) + " objects constructed over a living object (never destroyed)");
+    if (LG.dead_dtor) o.fail(S(LG.dead_dtor) + " destructor calls on a slot without a living object");
+    if (LG.dead_read) o.fail(S(LG.dead_read) + " copies from a slot without a living object");
+    if (!LG.live.empty()) o.fail(S(LG.live.size()) + " objects never destroyed");
+    if (LG.ctor != LG.dtor) o.fail(S(LG.ctor) + " constructor calls on ring slots, " + S(LG.dtor) + " destructor calls");
+    o.result = S(LG.over_live) + " " + S(LG.dead_dtor) + " " + S(LG.dead_read) + " " + S(LG.ctor) + " " + S(LG.dtor);
     if (LG.over_live) o.tag("over-live");
     if (LG.dead_dtor) o.tag("dead-dtor");
     if (LG.dead_read) o.tag("dead-read");
@@ -866,30 +917,259 @@ static void run_bring(const std::vector<std::string> &w, out &o)
     o.result = ret + " " + bring_state(b);
 }
 
+
+// ===================================================== round 3: stateless ops
+// ---- `widths`: sizeof / signedness of every index, size and counter type the model embeds
+template <class T> static std::string ty() { return std::string(std::is_signed<T>::value ? "i" : "u") + S(sizeof(T)); }
+static std::string widths_line()
+{
+    ring_head *rp = nullptr;
+    igris::ring<char> *tp = nullptr;
+    std::string s;
+    s += "head " + ty<decltype(ring_head::head)>() + " tail " + ty<decltype(ring_head::tail)>() + " size " + ty<decltype(ring_head::size)>();
+    s += " rc.counter " + ty<decltype(ring_counter::counter)>() + " rc.size " + ty<decltype(ring_counter::size)>();
+    s += " cyc._size " + ty<decltype(igris::cyclic_buffer<int>::_size)>() + " arr.m_size " + ty<decltype(igris::unbounded_array<int>::m_size)>();
+    s += " ring_read " + ty<decltype(ring_read(rp, (const char *)0, (char *)0, 0u))>();
+    s += " ring_write " + ty<decltype(ring_write(rp, (char *)0, (const char *)0, 0u))>();
+    s += " ring_avail " + ty<decltype(ring_avail(rp))>() + " ring_room " + ty<decltype(ring_room(rp))>();
+    s += " ring_fixup_index " + ty<decltype(ring_fixup_index(rp, 0))>();
+    s += " putc " + ty<decltype(ring_putc(rp, (char *)0, 'a'))>() + " getc " + ty<decltype(ring_getc(rp, (const char *)0))>();
+    s += " t.read " + ty<decltype(tp->read((char *)0, 0))>() + " t.write " + ty<decltype(tp->write((const char *)0, 0))>();
+    s += " t.avail " + ty<decltype(tp->avail())>() + " t.room " + ty<decltype(tp->room())>() + " t.size " + ty<decltype(tp->size())>();
+    s += " t.index_of " + ty<decltype(tp->index_of((char *)0))>() + " t.tail_index " + ty<decltype(tp->tail_index())>();
+    s += " t.distance " + ty<decltype(tp->distance(0, 0))>() + " t.fixup_index " + ty<decltype(tp->fixup_index(0))>();
+    s += " ring_head " + S(sizeof(ring_head)) + " ring_counter " + S(sizeof(ring_counter));
+    s += " int_max " + S(INT_MAX) + " uint_max " + S(UINT_MAX);
+    return s;
+}
+
+// ---- `premain`: the same calls made BEFORE main() (constructor with init_priority(101), i.e. before
+// every other static object of this program and of libstdc++'s users) and now; local objects only
+static std::string ints_csv(const std::vector<int> &v)
+{
+    std::string s;
+    for (size_t i = 0; i < v.size(); i++) s += (i ? "," : "") + S(v[i]);
+    return v.empty() ? "-" : s;
+}
+static std::string premain_compute()
+{
+    ring_head r;
+    char buf[5];
+    for (int i = 0; i < 5; i++) buf[i] = (char)(i * 7 + 3);
+    ring_init(&r, 5);
+    int rc1 = ring_putc(&r, buf, (char)0xff), rc2 = ring_putc(&r, buf, (char)0x80);
+    int g1 = ring_getc(&r, buf);
+    const char src[5] = {1, 2, 3, 4, 5};
+    int wr = ring_write(&r, buf, src, 5);
+    char dst[9];
+    int rd = ring_read(&r, buf, dst, 9);
+    std::string st = cring_state(&r);
+    int fx = ring_fixup_index(&r, -1);
+    igris::ring<int> t(3);
+    t.push(1); t.push(2); t.push(3);
+    int la = t.last();
+    t.pop();
+    int tl = t.tail();
+    std::vector<int> gl = t.get_last(0, 2, true);
+    unsigned av = t.avail();
+    igris::cyclic_buffer<int> c(3);
+    c.push(10); c.push(11); c.push(12);
+    int old = c.push(13);
+    int a0 = c[0], a2 = c[2];
+    ring_counter k;
+    ring_counter_init(&k, 7);
+    ring_counter_increment(&k, 9);
+    int pv = ring_counter_prev(&k, 5);
+    return S(rc1) + " " + S(rc2) + " " + S(g1) + " " + S(wr) + " " + hex((const uint8_t *)dst, rd < 0 ? 0 : (size_t)rd) + " " + st + " " + S(fx) + " " +
+           S(la) + " " + S(tl) + " " + ints_csv(gl) + " " + S(av) + " " + S(old) + " " + S(a0) + " " + S(a2) + " " + S(c.counter.counter) + " " +
+           S(k.counter) + " " + S(pv);
+}
+static char PREMAIN[512]; // zero-initialised storage: usable before any constructor has run
+struct PreMain
+{
+    PreMain()
+    {
+        std::string s = premain_compute();
+        strncpy(PREMAIN, s.c_str(), sizeof PREMAIN - 1);
+    }
+};
+static PreMain premain_object __attribute__((init_priority(101)));
+
+// ---- `hist <size> <script>` / `histt <n> <script>`: a whole history on ONE object in one line
+static const uint8_t HB[7] = {0xff, 0x80, 0x00, 0x7f, 0x01, 0xfe, 0x81};
+static std::string hist_bytes(size_t j, size_t n)
+{
+    bytes d(n);
+    for (size_t i = 0; i < n; i++) d[i] = HB[(j + i) % 7];
+    return hex(d);
+}
+static std::vector<std::string> split(const std::string &s, char c)
+{
+    std::vector<std::string> v;
+    std::string cur;
+    for (char ch : s) { if (ch == c) { v.push_back(cur); cur.clear(); } else cur += ch; }
+    v.push_back(cur);
+    return v;
+}
+static void merge(out &o, const out &sub, size_t k, const std::string &tok)
+{
+    if (sub.oracle != "ok") o.fail("step " + S(k) + " (" + tok + "): " + sub.oracle.substr(5));
+    for (const auto &t : split(sub.tags, ','))
+        if (!t.empty() && ("," + o.tags + ",").find("," + t + ",") == std::string::npos) o.tag(t.c_str());
+}
+static void reset_cring(unsigned size, size_t blen, out &o);
+static void run_hist(const std::vector<std::string> &w, out &o)
+{
+    unsigned size = (unsigned)strtoul(w[1].c_str(), 0, 10);
+    out first;
+    reset_cring(size, size, first);
+    merge(o, first, 0, "reset");
+    size_t j = 0, k = 0;
+    std::string res;
+    for (const auto &tok : split(w[2], ','))
+    {
+        std::vector<std::string> ww;
+        size_t n = tok.size() > 1 ? strtoul(tok.c_str() + 1, 0, 10) : 0;
+        if (tok == "p") { ww = {"putc", hist_bytes(j, 1)}; j++; }
+        else if (tok == "g") ww = {"getc"};
+        else if (tok[0] == 'w') { ww = {"write", hist_bytes(j, n)}; j += n; }
+        else if (tok[0] == 'r') ww = {"read", S(n)};
+        else { o.result = "bad-op"; return; }
+        out sub;
+        run_cring(ww, sub);
+        merge(o, sub, ++k, tok);
+        res += (res.empty() ? "" : ";") + sub.result;
+    }
+    o.tag("hist");
+    o.result = res;
+}
+static void run_histt(const std::vector<std::string> &w, out &o)
+{
+    int n0 = (int)strtol(w[1].c_str(), 0, 10);
+    tc.t.reset(new igris::ring<char>(n0));
+    tc.q.clear();
+    size_t j = 0, k = 0;
+    std::string res;
+    for (const auto &tok : split(w[2], ','))
+    {
+        std::vector<std::vector<std::string>> lines;
+        size_t n = tok.size() > 1 ? strtoul(tok.c_str() + 1, 0, 10) : 0;
+        if (tok == "u") { lines = {{"push", S((int)(signed char)HB[j % 7])}}; j++; }
+        else if (tok == "o") lines = {{"tail"}, {"pop"}};
+        else if (tok[0] == 'w') { lines = {{"write", hist_bytes(j, n)}}; j += n; }
+        else if (tok[0] == 'r') lines = {{"read", S(n)}};
+        else { o.result = "bad-op"; return; }
+        ++k;
+        for (auto &ww : lines)
+        {
+            out sub;
+            tc.run(ww, sub);
+            merge(o, sub, k, tok);
+            res += (res.empty() ? "" : ";") + sub.result;
+        }
+    }
+    o.tag("hist");
+    o.result = res;
+}
+
+// ---- `longrun <size> <n>`: oracle only (the model's list buffer is quadratic in n): n bytes through
+// ONE ring_write and ONE ring_read on a ring of `size` slots whose head starts near the end
+static void run_longrun(const std::vector<std::string> &w, out &o)
+{
+    unsigned size = (unsigned)strtoul(w[1].c_str(), 0, 10);
+    size_t n = strtoul(w[2].c_str(), 0, 10);
+    exact_buf rb(size);
+    ring_head r;
+    ring_init(&r, size);
+    ring_move_head(&r, size - 1000);
+    ring_move_tail(&r, size - 1000);
+    bytes d(n);
+    uint64_t x = 88172645463325252ull;
+    for (auto &b : d) { x ^= x << 13; x ^= x >> 7; x ^= x << 17; b = (uint8_t)(x >> 24); }
+    for (size_t i = 0; i < n; i += 4099) d[i] = 0xff;
+    exact_buf src(d), dst(n + 1);
+    size_t acc = std::min<size_t>(n, size - 1);
+    int wr = ring_write(&r, (char *)rb.p, (const char *)src.p, (unsigned)n);
+    if (wr != (int)acc) o.fail("ring_write of " + S(n) + " bytes returned " + S(wr) + ", room was " + S(size - 1));
+    if (ring_avail(&r) != acc || ring_room(&r) != size - 1 - acc) o.fail("avail/room after the long write");
+    int rd = ring_read(&r, (const char *)rb.p, (char *)dst.p, (unsigned)(n + 1));
+    if (rd != (int)acc) o.fail("ring_read returned " + S(rd) + " of " + S(acc) + " stored bytes");
+    else if (memcmp(dst.p, d.data(), acc)) o.fail("the bytes read differ from the bytes written");
+    if (dst.p[n] != 0xA5 && acc == n) o.fail("ring_read stored past its return value");
+    if (!ring_empty(&r) || r.head >= size || r.tail >= size) o.fail("ring not empty / index outside [0,size) after the long read");
+    o.tag("long");
+    if (r.head < size - 1000) o.tag("wrapped");
+    o.result = "-";
+}
+
+// ---- probes of recorded findings: objects outside the property's quantifier on which the code hangs or crashes
+static void run_sizezero(const std::vector<std::string> &w, out &o)
+{ // ring_init(r, 0) / a default-constructed igris::ring: finding C03-ring-size-zero
+    ring_head r;
+    ring_init(&r, 0);
+    if (w[1] == "mh") { ring_move_head(&r, 1); o.result = S(r.head); }      // while (head >= 0) head -= 0;
+    else if (w[1] == "fix") o.result = S(ring_fixup_index(&r, 1));          // 1 % 0
+    else if (w[1] == "tlast") { igris::ring<int> t; o.result = S(t.last()); } // fixup_index on size 0
+    else if (w[1] == "tpush") { igris::ring<int> t; t.push(1); o.result = S(t.avail()); } // store through nullptr
+    else o.result = "bad-op";
+    o.fail("size 0: the call returned");
+}
+static void run_movedpush(const std::vector<std::string> &w, out &o)
+{ // finding C03-moved-from-ring-use: the moved-from ring keeps r.size but owns no storage
+    igris::ring<int> a((int)strtol(w[1].c_str(), 0, 10));
+    a.push(1);
+    igris::ring<int> b(std::move(a));
+    a.push(2);
+    o.result = S(a.avail());
+    o.fail("push on a moved-from ring returned");
+}
+
 // ------------------------------------------------------------------------ run
 static int kind = 0; // 1 ring, 2 typed int, 3 typed char, 4 cyc, 5 rc
+static void reset_cring(unsigned size, size_t blen, out &o)
+{
+    cr.reset(new CRing);
+    cr->buf.reset(new exact_buf(blen));
+    for (size_t i = 0; i < blen; i++) cr->buf->p[i] = (uint8_t)(i * 7 + 3);
+    ring_init(&cr->r, size);
+    {
+        ring_head m = RING_HEAD_INIT(size); // the static initialiser must describe the same ring
+        if (m.head != cr->r.head || m.tail != cr->r.tail || m.size != cr->r.size) o.fail("RING_HEAD_INIT differs from ring_init");
+    }
+    kind = 1;
+    cring_check(*cr, o, blen >= size);
+    o.result = "- " + cring_state(&cr->r);
+}
 static void run_op(const std::vector<std::string> &w, const std::string &, out &o)
 {
     if (w.empty()) { o.result = "bad-op"; return; }
     if (w[0] == "lifeprobe" && w.size() >= 2) { run_lifeprobe(w, o); return; }
     if (w[0] == "lifecount" && w.size() == 3) { run_lifecount(w, o); return; }
+    if (w[0] == "reset" && w.size() >= 2)
+    { // one-line cases of round 3: `reset <kind> ...` (a case of its own: crash / replay granularity = the line)
+        std::vector<std::string> v(w.begin() + 1, w.end());
+        const std::string &k = v[0];
+        if (k == "widths") { o.result = widths_line(); o.tag("consts"); return; }
+        if (k == "premain")
+        {
+            o.result = PREMAIN;
+            if (o.result != premain_compute()) o.fail("the calls made before main() gave `" + o.result + "`, the same calls now give `" + premain_compute() + "`");
+            o.tag("premain");
+            return;
+        }
+        if (k == "hist" && v.size() == 3) { run_hist(v, o); return; }
+        if (k == "histt" && v.size() == 3) { kind = 3; run_histt(v, o); return; }
+        if (k == "longrun" && v.size() == 3) { run_longrun(v, o); return; }
+        if (k == "sizezero" && v.size() == 2) { run_sizezero(v, o); return; }
+        if (k == "movedpush" && v.size() == 2) { run_movedpush(v, o); return; }
+    }
     if (w[0] == "reset")
     {
         if (w.size() == 4 && w[1] == "ring")
         {
-            cr.reset(new CRing);
             unsigned size = (unsigned)strtoull(w[2].c_str(), 0, 10);
             size_t blen = strtoull(w[3].c_str(), 0, 10);
-            cr->buf.reset(new exact_buf(blen));
-            for (size_t i = 0; i < blen; i++) cr->buf->p[i] = (uint8_t)(i * 7 + 3);
-            ring_init(&cr->r, size);
-            {
-                ring_head m = RING_HEAD_INIT(size); // the static initialiser must describe the same ring
-                if (m.head != cr->r.head || m.tail != cr->r.tail || m.size != cr->r.size) o.fail("RING_HEAD_INIT differs from ring_init");
-            }
-            kind = 1;
-            cring_check(*cr, o, blen >= size);
-            o.result = "- " + cring_state(&cr->r);
+            reset_cring(size, blen, o);
         }
         else if (w.size() == 3 && w[1] == "typed")
         {
@@ -1535,13 +1815,146 @@ static void gen_lifetime()
             if (a) P("lifeprobe cyc " + S(a) + " " + S(b));
         }
     }
-    // recorded finding: igris::ring<T> placement-constructs over the live element
-    // the array constructed and pop() destroys an element the array destroys again
+    // repaired in round 3 (5bfd4f6, fcfbb44; was finding C03-ring-element-lifetime): igris::ring<T>
+    // placement-constructed over the live element the array constructed and pop() destroyed an element
+    // the array destroyed again
     for (int n : {1, 3, 8})
     {
-        P("@F:C03-ring-element-lifetime lifeprobe push " + S(n) + " " + S(n));
-        P("@F:C03-ring-element-lifetime lifeprobe pushpop " + S(n) + " " + S(2 * n + 1));
+        P("lifeprobe push " + S(n) + " " + S(n));
+        P("lifeprobe pushpop " + S(n) + " " + S(2 * n + 1));
     }
+}
+
+
+// ---- round 3 ---------------------------------------------------------------
+// every history of depth `depth` on ONE ring of `size` slots over the alphabet putc, getc,
+// ring_write of 0..room+1 bytes, ring_read of 0..avail+1 bytes (lengths beyond room+1 / avail+1 take the
+// same path as room+1 / avail+1); typed: push / tail+pop inside the contract, write, read
+static void gen_hist_rec(const std::string &head, unsigned cap, int depth, unsigned cnt, const std::string &sc, bool typed)
+{
+    if (depth == 0) { P(head + " " + sc); return; }
+    std::string pre = sc.empty() ? "" : sc + ",";
+    unsigned room = cap - cnt;
+    if (!typed || cnt < cap) gen_hist_rec(head, cap, depth - 1, cnt < cap ? cnt + 1 : cnt, pre + (typed ? "u" : "p"), typed);
+    if (!typed || cnt > 0) gen_hist_rec(head, cap, depth - 1, cnt ? cnt - 1 : 0, pre + (typed ? "o" : "g"), typed);
+    for (unsigned n = 0; n <= room + 1; n++) gen_hist_rec(head, cap, depth - 1, cnt + std::min(n, room), pre + "w" + S(n), typed);
+    for (unsigned n = 0; n <= cnt + 1; n++) gen_hist_rec(head, cap, depth - 1, cnt - std::min(n, cnt), pre + "r" + S(n), typed);
+}
+
+static void gen_round3(rng &r, bool th)
+{
+    // (a) constants of the build, calls before main()
+    P("reset widths");
+    P("reset premain");
+    // (b) interleavings of bulk and single operations on one object, exhaustive
+    for (unsigned size = 1; size <= 4; size++) gen_hist_rec("reset hist " + S(size), size - 1, 5, 0, "", false);
+    for (unsigned n = 1; n <= 3; n++) gen_hist_rec("reset histt " + S(n), n, th ? 5 : 4, 0, "", true);
+    // (c) long inputs (oracle only): > 300 KiB through one ring_write / ring_read, wrapping; more than the room
+    P("reset longrun 400003 307200");
+    P("reset longrun 65536 307200");
+    P("reset longrun 307201 307200");
+    // (d) boundary sizes 65535 / 65536 / 65537 with the head next to the wrap point
+    for (unsigned size : {65535u, 65536u, 65537u})
+    {
+        P("reset ring " + S(size) + " " + S(size));
+        P("mh " + S(size - 3)); P("mt " + S(size - 3));
+        P("write " + rhex(r, 7)); P("putc ff"); P("read 3"); P("getc"); P("fix -1"); P("fix " + S(size));
+        P("prod " + rhex(r, 5)); P("cons 4"); P("mh " + S(size - 20)); P("putc 00"); P("mt " + S(size - 9)); P("read 9"); P("getc");
+    }
+    for (int n : {65534, 65535, 65536})
+    {
+        P("reset typed " + S(n));
+        for (int i = 0; i < 4; i++) { P("push " + S(i + 1)); P("last"); }
+        P("setlast " + S(n - 1)); P("mt1"); P("mt1"); P("mt1"); P("mt1"); P("push 7"); P("push 8"); P("last"); P("getlast 0 2 1");
+        P("fixup -1"); P("fixup " + S(n + 1)); P("distance 0 " + S(n)); P("pop"); P("tail");
+    }
+    // (e) the argument of push() aliasing the head slot, at every (head, fill < n) of rings 1..4
+    for (int n = 1; n <= 4; n++)
+        for (int h = 0; h <= n; h++)
+            for (int fill = 0; fill < n; fill++)
+            {
+                int size = n + 1, t = ((h - fill) % size + size) % size;
+                P("reset typed " + S(n));
+                for (int i = 0; i < t; i++) { P("push " + S(-i - 1)); P("pop"); }
+                for (int i = 0; i < fill; i++) P("push " + S(100 + i));
+                P("pushalias");
+                P("last");
+                for (int i = 0; i <= fill; i++) { P("tail"); P("pop"); }
+            }
+    // (f) lifetime of ring<Tracked> under ANY push/pop sequence (contract or not) and the aliasing push
+    for (int n = 1; n <= 2; n++)
+    {
+        int maxlen = th ? 7 : 6;
+        std::vector<std::pair<std::string, int>> cur = {{"", 0}};
+        for (int len = 1; len <= maxlen; len++)
+        {
+            std::vector<std::pair<std::string, int>> nxt;
+            for (auto &p : cur)
+            {
+                nxt.push_back({p.first + (p.second < n ? "u" : "U"), p.second < n ? p.second + 1 : 0});
+                nxt.push_back({p.first + (p.second > 0 ? "o" : "O"), p.second > 0 ? p.second - 1 : n});
+                nxt.push_back({p.first + "a", p.second < n ? p.second + 1 : 0});
+            }
+            if (len == maxlen) for (auto &p : nxt) P("lifecount " + S(n) + " " + p.first);
+            cur = nxt;
+        }
+    }
+    for (int n : {1, 2, 3, 5, 8})
+        for (int rep = 0; rep < (th ? 40 : 8); rep++)
+        {
+            std::string sc;
+            int len = (int)r.range(1, 4 * n + 10);
+            int cnt = 0;
+            for (int k = 0; k < len; k++)
+            {
+                unsigned y = (unsigned)r.below(100);
+                if (y < 35) { sc += cnt < n ? 'u' : 'U'; cnt = cnt < n ? cnt + 1 : 0; }
+                else if (y < 65) { sc += cnt > 0 ? 'o' : 'O'; cnt = cnt > 0 ? cnt - 1 : n; }
+                else if (y < 75) { sc += 'a'; cnt = cnt < n ? cnt + 1 : 0; }
+                else if (y < 80) { sc += 'c'; cnt = 0; }
+                else if (y < 86) { sc += 'z'; cnt = 0; }
+                else if (y < 94) sc += 'y';
+                else sc += 'm';
+            }
+            P("lifecount " + S(n) + " " + sc);
+        }
+    // (g) cyclic_buffer[i] for negative i down to the boundary counter - size + 1 (admissible: counter - i < size)
+    for (int n = 1; n <= 6; n++)
+    {
+        P("reset cyc " + S(n));
+        for (int k = 0; k <= 2 * n; k++)
+        {
+            int counter = k % n;
+            for (int i = counter - n + 1; i < 0; i++) P("at " + S(i));
+            P("at 0");
+            P("push " + S(500 + k));
+        }
+    }
+    // ---- probes of recorded findings (objects / arguments outside the property's quantifier) ----
+    // igris::ring<T>::push / pop do not reject on full / empty
+    for (int n : {1, 3, 8})
+    {
+        P("reset typed " + S(n));
+        for (int i = 0; i < n; i++) P("push " + S(i + 1));
+        P("@F:C03-typed-ring-no-reject pushfull 99");
+        P("reset typed " + S(n));
+        P("push 1"); P("pop");
+        P("@F:C03-typed-ring-no-reject popempty");
+    }
+    // cyclic_buffer[i] at i == counter - size: ring_counter_prev returns size, data[size] is outside
+    P("reset cyc 3");
+    P("@F:C03-cyclic-index-below-range at -3");
+    P("reset cyc 4");
+    P("push 1");
+    P("@F:C03-cyclic-index-below-range at -3");
+    // size 0 (ring_init(r, 0), default-constructed igris::ring): division by zero, null store, endless loop
+    P("@F:C03-ring-size-zero reset sizezero fix");
+    P("@F:C03-ring-size-zero reset sizezero tlast");
+    P("@F:C03-ring-size-zero reset sizezero tpush");
+    if (th) P("@F:C03-ring-size-zero reset sizezero mh");
+    // a moved-from igris::ring keeps r.size and has no storage
+    P("@F:C03-moved-from-ring-use reset movedpush 3");
+    P("reset rc 1");
 }
 
 static void gen(rng &r, const std::string &tier)
@@ -1559,6 +1972,7 @@ static void gen(rng &r, const std::string &tier)
     gen_cyc(r, th);
     gen_bring(r, th);
     gen_ext(r, th);
+    gen_round3(r, th);
 }
 
 int main(int argc, char **argv) { return main_(argc, argv, gen, run_op); }
